@@ -9,7 +9,8 @@ package dastard
 //@ func rcCode
 //@   props C19
 //@   requires 0 <= row && row < 65536 && 0 <= col && col < 65536 && 0 <= rows && rows < 65536 && 0 <= cols && cols < 65536
-//@   ensures (result / 1) % 65536 == row && (result / 65536) % 65536 == col && (result / 4294967296) % 65536 == rows && (result / 281474976710656) % 65536 == cols
+//@   ensures value: result == row + col * 65536 + rows * 4294967296 + cols * 281474976710656
+//@   ensures decode: (result / 1) % 65536 == row && (result / 65536) % 65536 == col && (result / 4294967296) % 65536 == rows && (result / 281474976710656) % 65536 == cols
 
 // ---- Lancero numbering ----
 // Ghost state: gch[d] = number of channels of the cards before card d (prefix sums of 2*ncols*nrows).
@@ -21,6 +22,9 @@ package dastard
 //@ ghost field LanceroSource.gcol intmap
 //@ ghost field LanceroSource.grow intmap
 //@ ghost field LanceroSource.ggrp intmap
+//@ ghost field LanceroSource.gfirst intmap
+// gfirst[k] = table index of the first channel reported by group k; pos(a, r) = a + 2r is the index of its r-th row.
+//@ define pos(a int, r int) int := a + 2 * r
 
 //@ lemma muldisj C19: forall a int, b int, s int :: {mul(a, s), mul(b, s)} a < b && s > 0 ==> mul(a, s) + s <= mul(b, s)
 //@ lemma mulmono C19: forall a int, b int, s int :: {mul(a, s), mul(b, s)} 0 <= a && a <= b && s >= 0 ==> mul(a, s) <= mul(b, s) && 0 <= mul(a, s)
@@ -63,7 +67,17 @@ package dastard
 //@ pred Below(ls *LanceroSource, n int, d int, next int) := forall i int :: {ls.chanNumbers[i]} 0 <= i && i < n && (ls.chanSepCards == 0 || ls.gdv[i] == d) ==> ls.chanNumbers[i] < next
 //@ pred CardOf(ls *LanceroSource, n int, d int) := forall i int :: {ls.gdv[i]} 0 <= i && i < n ==> (ls.gdv[i] <= d && (i >= ls.gch[d] ==> ls.gdv[i] == d))
 
+// Groups: every table entry lies inside the group ggrp[i]; GroupFull(k, m): the first m numbers of group k
+// are in use (at the even entries pos(gfirst[k], r)), so complete groups cover exactly numbers in use.
+//@ pred Groups(ls *LanceroSource, n int) := forall i int :: {ls.ggrp[i]} 0 <= i && i < n ==> 0 <= ls.ggrp[i] && ls.ggrp[i] < len(ls.groupKeysSorted)
+//@     && ls.groupKeysSorted[ls.ggrp[i]].Firstchan <= ls.chanNumbers[i] && ls.chanNumbers[i] < ls.groupKeysSorted[ls.ggrp[i]].Firstchan + ls.groupKeysSorted[ls.ggrp[i]].Nchan
+//@ pred GroupFull(ls *LanceroSource, k int, m int, n int) := forall r int :: {pos(ls.gfirst[k], r)} 0 <= r && r < m ==> 0 <= ls.gfirst[k] && pos(ls.gfirst[k], r) + 1 < n
+//@     && ls.chanNumbers[pos(ls.gfirst[k], r)] == ls.groupKeysSorted[k].Firstchan + r && ls.ggrp[pos(ls.gfirst[k], r)] == k
+//@ pred GroupsFull(ls *LanceroSource, ng int, n int) := forall k int, r int :: {pos(ls.gfirst[k], r)} 0 <= k && k < ng && 0 <= r && r < ls.groupKeysSorted[k].Nchan ==> 0 <= ls.gfirst[k] && pos(ls.gfirst[k], r) + 1 < n
+//@     && ls.chanNumbers[pos(ls.gfirst[k], r)] == ls.groupKeysSorted[k].Firstchan + r && ls.ggrp[pos(ls.gfirst[k], r)] == k
+
 //@ func (*LanceroSource).PrepareChannels
+//@   uses pos_def
 //@   props C19
 //@   uses mulzero
 //@   uses muldisj
@@ -74,8 +88,9 @@ package dastard
 //@   ensures tables: result == nil ==> len(ls.chanNumbers) == ls.nchan && len(ls.chanNames) == ls.nchan && len(ls.rowColCodes) == ls.nchan && len(ls.subframeOffsets) == ls.nchan && ls.channelsPerPixel == 2
 //@   ensures partners: result == nil ==> Partners(ls, ls.nchan)
 //@   ensures geometry: result == nil ==> GeoAll(ls, ls.nchan)
+//@   ensures groups: result == nil ==> Groups(ls, ls.nchan) && GroupsFull(ls, len(ls.groupKeysSorted), ls.nchan)
 //@   ensures distinct: result == nil ==> (forall i int, j int :: {ls.chanNumbers[i], ls.chanNumbers[j]} 0 <= i && i < j && j < ls.nchan && i % 2 == 0 && j % 2 == 0 ==> ls.chanNumbers[i] != ls.chanNumbers[j])
-//@   modifies ls.channelsPerPixel, ls.chanSepColumns, ls.rowColCodes, ls.chanNames, ls.chanNumbers, ls.subframeOffsets, ls.groupKeysSorted, ls.subframeDivisions, ls.mixedRowCounts, ls.gdv, ls.gcol, ls.grow, ls.ggrp
+//@   modifies ls.channelsPerPixel, ls.chanSepColumns, ls.rowColCodes, ls.chanNames, ls.chanNumbers, ls.subframeOffsets, ls.groupKeysSorted, ls.subframeDivisions, ls.mixedRowCounts, ls.gdv, ls.gcol, ls.grow, ls.ggrp, ls.gfirst
 // (ghost assignments run at the end of the loop body, where index and row are already advanced)
 //@   ghost loop 5: ls.gdv[index - 2] := rangeindex3
 //@   ghost loop 5: ls.gdv[index - 1] := rangeindex3
@@ -83,6 +98,9 @@ package dastard
 //@   ghost loop 5: ls.gcol[index - 1] := col
 //@   ghost loop 5: ls.grow[index - 2] := row - 1
 //@   ghost loop 5: ls.grow[index - 1] := row - 1
+//@   ghost loop 5: ls.ggrp[index - 2] := len(ls.groupKeysSorted) - 1
+//@   ghost loop 5: ls.ggrp[index - 1] := len(ls.groupKeysSorted) - 1
+//@   ghost loop 5: ls.gfirst[len(ls.groupKeysSorted) - 1] := index - 2 * row
 //@   loop 1
 //@     invariant -1 <= rangeindex && rangeindex <= len(ls.active) - 1 && DevsOK(ls) && unchanged(ls.active, ls.chanSepColumns, ls.chanSepCards, ls.nchan, ls.firstRowChanNum) && ls.chanSepColumns > 0 && ls.chanSepCards >= 0
 //@     invariant done: forall p int :: {at(ls.active, p)} ls.active.off <= p && p <= ls.active.off + rangeindex ==> at(ls.active, p).nrows <= ls.chanSepColumns
@@ -100,6 +118,7 @@ package dastard
 //@     invariant cardof: CardOf(ls, index, rangeindex)
 //@     invariant incard: InCard(ls, index)
 //@     invariant ordered: Ordered(ls, index)
+//@     invariant groups: Groups(ls, index) && GroupsFull(ls, len(ls.groupKeysSorted), index)
 //@     invariant below: ls.chanSepCards == 0 ==> Below(ls, index, 0, ite(ls.chanSepColumns > 0, thisColFirstCnum + ls.chanSepColumns, cnum)) && (ls.chanSepColumns > 0 ==> cnum <= thisColFirstCnum + ls.chanSepColumns)
 //@   loop 4
 //@     invariant 0 <= rangeindex3 && rangeindex3 < len(ls.active) && device == Dev(ls, rangeindex3) && 0 <= col && col <= device.ncols && Fixed(ls)
@@ -110,6 +129,7 @@ package dastard
 //@     invariant cardof: CardOf(ls, index, rangeindex3)
 //@     invariant incard: InCard(ls, index)
 //@     invariant ordered: Ordered(ls, index)
+//@     invariant groups: Groups(ls, index) && GroupsFull(ls, len(ls.groupKeysSorted), index)
 //@     invariant below: Below(ls, index, rangeindex3, ite(ls.chanSepColumns > 0, thisColFirstCnum + ls.chanSepColumns, cnum)) && (ls.chanSepColumns > 0 ==> cnum <= thisColFirstCnum + ls.chanSepColumns)
 //@     invariant next: ls.chanSepCards > 0 ==> ite(ls.chanSepColumns > 0, thisColFirstCnum + ls.chanSepColumns, cnum) == Base(ls, rangeindex3) + mul(col, ColSep(ls, device))
 //@     apply mulstep(col, device.nrows) && frameindex(col, device.ncols, 0, device.nrows) && mulstep(col, ColSep(ls, device))
@@ -122,6 +142,8 @@ package dastard
 //@     invariant cardof: CardOf(ls, index, rangeindex3)
 //@     invariant incard: InCard(ls, index)
 //@     invariant ordered: Ordered(ls, index)
+//@     invariant groups: Groups(ls, index) && GroupsFull(ls, len(ls.groupKeysSorted) - 1, index) && GroupFull(ls, len(ls.groupKeysSorted) - 1, row, index)
+//@     invariant group: len(ls.groupKeysSorted) >= 1 && ls.groupKeysSorted[len(ls.groupKeysSorted) - 1].Firstchan == thisColFirstCnum && ls.groupKeysSorted[len(ls.groupKeysSorted) - 1].Nchan == device.nrows && (row > 0 ==> ls.gfirst[len(ls.groupKeysSorted) - 1] == index - 2 * row)
 //@     invariant below: Below(ls, index, rangeindex3, cnum) && cnum == thisColFirstCnum + row
 //@     invariant next: ls.chanSepCards > 0 ==> thisColFirstCnum == Base(ls, rangeindex3) + mul(col, ColSep(ls, device))
 //@     apply frameindex(col, device.ncols, row, device.nrows) && mulstep(col, device.nrows) && frameindex(col, device.ncols, row, ColSep(ls, device)) && mulstep(col, ColSep(ls, device))
